@@ -264,10 +264,12 @@ def rules(ctx):
             if src(lp.iter) != '%s.items()' % sn:
                 continue
             kv = src(lp.target.elts[0])
-            keynames = {src(t.slice) for st in ast.walk(lp) if isinstance(st, (ast.Assign, ast.AugAssign))
-                        for t in (st.targets if isinstance(st, ast.Assign) else [st.target])
-                        if isinstance(t, ast.Subscript) and isinstance(t.slice, ast.Name)}
-            for s_, v in [x for kn in sorted(keynames) for x in assignments_to(fn.node, kn)]:
+            slices = [t.slice for st in ast.walk(lp) if isinstance(st, (ast.Assign, ast.AugAssign))
+                      for t in (st.targets if isinstance(st, ast.Assign) else [st.target])
+                      if isinstance(t, ast.Subscript) and not is_name(t.value, sn)]
+            keynames = {x.id for sl in slices for x in ast.walk(sl) if isinstance(x, ast.Name)}
+            cands = [(None, sl) for sl in slices] + [x for kn in sorted(keynames) for x in assignments_to(fn.node, kn)]
+            for s_, v in cands:
                 if isinstance(v, ast.AST):
                     for n in ast.walk(v):
                         if isinstance(n, (ast.GeneratorExp, ast.ListComp)) and len(n.generators) == 1 and \
